@@ -122,6 +122,28 @@ def search(seed=0, N=400):
                         seen.setdefault(cls, desc)
                         continue
                     return n, desc, seen
+    # missing variables are reported: a variable that occurs in plain form `{{v}}` is required however else it also occurs
+    import re as _re
+    for tmpl in ("{{v}}", "{{v}} {{?v}}", "{{?v}} {{v}}", "{{v|d}} {{v}}", "{{v}} {{v|d}}", "{{v}}{{v}}", "{{?v}}", "{{v|d}}", "{{?v}} {{v|d}}", "a {{w}} {{?v}} {{v}} {{w|x}}"):
+        plain = set(_re.findall(r"\{\{(\w+)\}\}", tmpl))
+        n += 1
+        with contextlib.redirect_stdout(io.StringIO()):
+            m_ = mRNA(sequence=tmpl, name="t")
+            req = set(m_.get_required_variables())
+            got = Ribosome(silent=True).translate(m_)
+        missing_reported = {w_.split(": ", 1)[1] for w_ in got.warnings if w_.startswith("Missing required variable: ")}
+        if req != plain or missing_reported != plain:
+            return n, (f"missing-variable reporting: template {tmpl!r} rendered with nothing bound: required={sorted(req)}, reported missing={sorted(missing_reported)}, "
+                       f"plain occurrences={sorted(plain)}"), seen
+        n += 1
+        raised = False
+        try:
+            with contextlib.redirect_stdout(io.StringIO()):
+                Ribosome(strict=True, silent=True).translate(mRNA(sequence=tmpl, name="t"))
+        except ValueError:
+            raised = True
+        if raised != bool(plain):
+            return n, f"missing-variable reporting: strict mode {'raised' if raised else 'did not raise'} for template {tmpl!r} with nothing bound (plain occurrences={sorted(plain)})", seen
     # strict mode and unknown template
     with contextlib.redirect_stdout(io.StringIO()):
         r = Ribosome(strict=True, silent=True)
